@@ -1,3 +1,4 @@
+import PGM.Properties.C01
 import PGM.Proofs.BPBounded
 /-!
 # C01 (continued) — exact inference stays finite
@@ -56,6 +57,21 @@ theorem exZ : partition exD exPots = 7000028 := by
 theorem exZ_ne : partition exD exPots ≠ 0 := by rw [exZ]; norm_num
 
 theorem exValid : exD.Valid (fun _ => 1) := by unfold Dom.Valid; decide
+
+/-- `bp_const_shift_invariant` (hence `bp_tree_indep` with `k ≠ 1`) is NOT vacuous: on the example model, adding `log 5` to the
+potential on `[b,c]` (exp-space: that table times 5) — all hypotheses hold, total `100` -/
+example := bp_const_shift_invariant exD exCl exT exOrd
+  [(["a", "b"], ⟨[("a", 2), ("b", 2)], ⟨[2, 2], #[⟨1⟩, ⟨1000000⟩, ⟨0⟩, ⟨3⟩]⟩⟩)] []
+  ["b", "c"] ⟨[("b", 2), ("c", 2)], ⟨[2, 2], #[⟨2⟩, ⟨5⟩, ⟨7⟩, ⟨0⟩]⟩⟩ exModelOK (⟨100⟩ : LogOf ℚ) 5 (by norm_num) exZ_ne
+  (by norm_num) ["a", "b"] (by decide) (fun _ => 1) exValid
+/-- ... and by evaluation: the shifted potentials are different, the returned table is the same -/
+example :
+    let shifted : CliqueVec (LogOf ℚ) :=
+      [(["a", "b"], ⟨[("a", 2), ("b", 2)], ⟨[2, 2], #[⟨1⟩, ⟨1000000⟩, ⟨0⟩, ⟨3⟩]⟩⟩), (["b", "c"], (Factor.addScalar (⟨5⟩ : LogOf ℚ) ⟨[("b", 2), ("c", 2)], ⟨[2, 2], #[⟨2⟩, ⟨5⟩, ⟨7⟩, ⟨0⟩]⟩⟩))]
+    (shifted.get ["b", "c"]).vals.data.toList.map (·.v) = [10, 25, 35, 0] ∧
+    ((beliefPropagation exCl exOrd shifted ⟨100⟩).get ["a", "b"]).vals.data.toList.map (·.v)
+      = ((beliefPropagation exCl exOrd exPots ⟨100⟩).get ["a", "b"]).vals.data.toList.map (·.v) := by
+  decide +kernel
 end Example
 
 /-! ## 1. the specification: `0 ≤ marginal ≤ Z` -/
